@@ -115,10 +115,10 @@ func (e *Engine) collectNames(fn *ssa.Function) *fnNames {
 }
 
 type constGlobalInfo struct {
-	g       *ssa.Global
-	alloc   *ssa.Alloc // initialised with &T{...}
-	value   ssa.Value
-	nonNil  bool
+	g      *ssa.Global
+	alloc  *ssa.Alloc // initialised with &T{...}
+	value  ssa.Value
+	nonNil bool
 }
 
 func LoadEngine(root string) (*Engine, error) {
